@@ -71,7 +71,7 @@ def conc_cfg(r):
         if sv.get("scope") == "shared":
             sv["arguments"] = [a for a in sv.get("arguments", []) if not (isinstance(a, str) and a.startswith("@") and (a[1:] in ctxl or svcs[a[1:]].get("scope") in (None,) and any(isinstance(b, str) and b[1:] in ctxl for b in svcs[a[1:]].get("arguments", []))))]
     cfg = {"meta": {"functions": {"fa": "GetEnv", "fb": "Lookup", "fc": "Fn"}},
-           "parameters": {"pa": "%fa(\"a\")%", "pb": "%fb(\"b\")% and %pa%", "pc": "%fc(\"c\")%"},
+           "parameters": {"pa": "%fa(\"a\")%", "pb": "%fb(\"b\")% and %pa%", "pc": "%fc(\"c\")%", "palias": "%pa%", "palias2": "%palias%", "pcalias": "%pc%"},
            "services": svcs}
     if decs:
         cfg["decorators"] = decs
